@@ -107,7 +107,8 @@ ProofOrChal(ops) == SelectSeq(ops, LAMBDA o : (o.o = "A" /\ o.l \in ProofLabels)
 IntegrityOrder(logged, model) ==
   LET a == ProofOrChal(logged)  b == ProofOrChal(model)
   IN /\ Len(a) = Len(b)
-     /\ \A k \in 1 .. Len(a) : a[k].o = b[k].o /\ a[k].f = b[k].f /\ a[k].l = b[k].l /\ (b[k].o = "A" => OpMatch(a[k], b[k]))
+     \* (whether a challenge is squeezed from the transcript itself or from a clone of it is C06's statement, not compared here)
+     /\ \A k \in 1 .. Len(a) : a[k].o = b[k].o /\ a[k].l = b[k].l /\ (b[k].o = "A" => OpMatch(a[k], b[k]))
 
 NewOps(role) == SubSeq(tr'[role], Len(tr[role]) + 1, Len(tr'[role]))
 
